@@ -707,11 +707,26 @@ var (
 	hangSecs = 30
 )
 
+var saveCurrent = os.Getenv("VERIF_SAVE_CURRENT") != ""
+
 func beginCase(c *Case) {
 	curCase.Store(c)
 	curSince.Store(time.Now().UnixNano())
+	if saveCurrent {
+		// the race detector halts the process on the first report: keep the
+		// running case on disk so that the driver can name it
+		dir := filepath.Join(verifDir, "replays", property)
+		_ = os.MkdirAll(dir, 0o755)
+		data, _ := json.Marshal(c)
+		_ = os.WriteFile(filepath.Join(dir, fmt.Sprintf("current-%d.json", shard)), data, 0o644)
+	}
 }
-func endCase() { curCase.Store(nil) }
+func endCase() {
+	curCase.Store(nil)
+	if saveCurrent {
+		_ = os.Remove(filepath.Join(verifDir, "replays", property, fmt.Sprintf("current-%d.json", shard)))
+	}
+}
 
 // startWatchdog aborts the process with exit status 3 when one case has been
 // executing for hangSecs; the case is saved so that the driver can re-run it
